@@ -27,6 +27,8 @@ FUNCTIONS = [
     'dassh.region_unrodded:SingleNodeHomogeneous._calc_coolant_temp',
     'dassh.region_unrodded:MultiNodeHomogeneous._calc_coolant_temp',
     'dassh.region_unrodded:MultiNodeHomogeneous._setup_ht_consts',
+    'dassh.region_rodded:RoddedRegion.clone', 'dassh.region_unrodded:SingleNodeHomogeneous.clone',
+    'dassh.region_unrodded:MultiNodeHomogeneous.clone',
 ]
 ASSUMPTIONS = [
     'calculate_geometry enters through its contract (atoms + relations proved in C08); topology arrays (type, sc_adj, '
@@ -50,6 +52,9 @@ def _face(rr, i, ty):
 def interior(S, cfg):
     rr = make_rodded(S, n_ring=cfg['n_ring'], n_duct=cfg.get('n_duct', 1), tdep=cfg.get('tdep', False),
                      wwdir=cfg.get('wwdir', 'clockwise'))
+    if cfg.get('cloned'):
+        # the region the sweep uses is a clone of a template with its own flow rate
+        rr = rr.clone(new_flowrate=S.pos('flow_clone', 5.0, 30.0))
     set_int_params(S, rr, conv_approx=cfg.get('conv_approx', False))
     set_temps(S, rr)
     nsc = rr.subchannel.n_sc['coolant']['total']
@@ -111,6 +116,8 @@ interior.cname = 'RoddedRegion._calc_coolant_int_temp'
 
 def bypass(S, cfg):
     rr = make_rodded(S, n_ring=cfg['n_ring'], n_duct=cfg['n_duct'], tdep=cfg.get('tdep', False))
+    if cfg.get('cloned'):
+        rr = rr.clone(new_flowrate=S.pos('flow_clone', 5.0, 30.0))
     set_int_params(S, rr, conv_approx=cfg.get('conv_approx', False))
     set_temps(S, rr)
     nd = rr.subchannel.n_sc['duct']['total']
@@ -173,6 +180,8 @@ def unrodded(S, cfg):
     ur = make_unrodded(S, model=model, tdep=cfg.get('tdep', False), lowflow=cfg.get('lowflow', False),
                        mratio=cfg.get('mratio', 'atom'))
     nn = 1 if model == 'simple' else 6
+    if cfg.get('cloned'):
+        ur = ur.clone(new_flowrate=S.pos('flow_clone', 5.0, 30.0))
     ur.temp['coolant_int'] = S.vec('Tc', nn, 'pos', 600.0, 900.0)
     ur.temp['duct_mw'] = S.vec('Tmw', (1, 6), 'pos', 600.0, 900.0)
     ur.temp['duct_surf'] = S.vec('Ts', (1, 2, 6), 'pos', 600.0, 900.0)
@@ -198,7 +207,7 @@ def unrodded(S, cfg):
 
     cp = ur.coolant.heat_capacity
     side = ur.duct_perim / 6
-    S.eq('lf.side_length', side, ur._ftf[1] / (3 ** 0.5 if S.mode != 'sym' else common.Sym(common.core.C(common.core.Q3(0, 1)))))
+    S.eq('lf.side_length', side, ur.duct_ftf[1] / (3 ** 0.5 if S.mode != 'sym' else common.Sym(common.core.C(common.core.Q3(0, 1)))))
     wall = []
     for c in range(6):
         Tc = T0[c] if nn == 6 else T0[0]
@@ -283,6 +292,10 @@ def configs(tier):
     out.append((interior, dict(n_ring=2, power='none')))
     out.append((interior, dict(n_ring=2, n_duct=2)))
     out.append((interior, dict(n_ring=2, tdep=True)))
+    out.append((interior, dict(n_ring=2, cloned=True)))
+    out.append((bypass, dict(n_ring=2, n_duct=2, cloned=True)))
+    out.append((unrodded, dict(model='simple', cloned=True)))
+    out.append((unrodded, dict(model='6node', cloned=True)))
     out.append((bypass, dict(n_ring=2, n_duct=2)))
     out.append((bypass, dict(n_ring=2, n_duct=2, conv_approx=True)))
     out.append((bypass, dict(n_ring=3, n_duct=2)))
